@@ -206,15 +206,22 @@ pub(super) fn reshape_check(dims: &[usize], target: &[usize], mode: u8) {
     }
 }
 
-/// softmax over the last dimension (rows of two; first element of each row fixed to -4 so that the
-/// model exponentials sum to a power of two and every quotient is exact)
+/// softmax over the last dimension (rows of two; linked with the exp(x) = 2^x model, a true homomorphism, so
+/// that shifted / rescaled but algebraically equal formulations give identical bits)
 pub(super) fn softmax_check(rows: usize, mode: u8) {
     let dims = [rows, 2];
     let mut xv: Vec<Float> = Vec::with_capacity(rows * 2);
     let mut r = 0;
     while r < rows {
-        xv.push(-4.0);
-        xv.push(sym_val());
+        if mode == 0 {
+            xv.push(-4.0);
+            xv.push(sym_val());
+        } else {
+            // derivative: rows with two equal (symbolic) entries, so that y = 1/2 and every product is exact
+            let c = sym_val();
+            xv.push(c);
+            xv.push(c);
+        }
         r += 1;
     }
     if mode == 0 {
@@ -227,8 +234,9 @@ pub(super) fn softmax_check(rows: usize, mode: u8) {
             let e1 = xv[2 * r + 1].exp();
             let s = e0 + e1;
             assert!(y.values[2 * r] == e0 / s && y.values[2 * r + 1] == e1 / s, "C07 softmax = exponentials divided by their sum over the last dimension");
-            assert!(y.values[2 * r] >= 0.0 && y.values[2 * r + 1] >= 0.0 && y.values[2 * r] + y.values[2 * r + 1] == 1.0,
-                    "C07 softmax rows are non-negative and sum to one (exact on this domain)");
+            let rs = y.values[2 * r] + y.values[2 * r + 1];
+            assert!(y.values[2 * r] >= 0.0 && y.values[2 * r + 1] >= 0.0 && rs >= 1.0 - 1.0e-6 && rs <= 1.0 + 1.0e-6,
+                    "C07 softmax rows are non-negative and sum to one (up to rounding of the two quotients)");
             r += 1;
         }
     } else {
